@@ -126,9 +126,11 @@ Proof. exact no_marker_survives_lemma. Qed.
 Print Assumptions no_marker_survives.
 
 (* EVERY placeholder of a document is replaced by the block of its kind - any number of placeholders of
-   both kinds (the normal page: CSS placeholder in <head>, JS placeholder in <body>), each with an optional
-   data-djc-css attribute, any number of data-djc-id attributes (the repaired defect 59fa6d8) and an optional
-   "/" - for text pieces free of "_PLACEHOLDER"; the two flags say which kinds were found. *)
+   both kinds (the normal page: CSS placeholder in <head>, JS placeholder in <body>), each with any number of
+   data-djc-id attributes (the repaired defect 59fa6d8) and data-djc-css attributes (\w{6} values; in ANY order when
+   PLACEHOLDER_REGEX has the shape of notes/fixes/C04-placeholder-css-attr-order.patch - `any_order`, read from the
+   source on every run - otherwise at most one css attribute, in front) and an optional "/" - for text pieces free of
+   "_PLACEHOLDER"; the two flags say which kinds were found. *)
 Theorem placeholders_all_replaced : forall d tail js_b css_b,
   ph_pieces_ok d tail ->
   subst_placeholders (phdoc_bytes d tail) js_b css_b = (phdoc_subst d tail js_b css_b, has_kind KJs d, has_kind KCss d).
@@ -282,22 +284,30 @@ Qed.
 
 (* the placeholder that is the root of three nested components (witness of 59fa6d8) *)
 Example placeholder_three_ids :
-  subst_placeholders (emit_placeholder KCss None [[97;48;48;48;48;49]; [97;48;48;48;48;50]; [97;48;48;48;48;51]] false) [74] [67]
+  subst_placeholders (emit_placeholder KCss [(false, [97;48;48;48;48;49]); (false, [97;48;48;48;48;50]); (false, [97;48;48;48;48;51])] false) [74] [67]
   = ([67], false, true).
 Proof. vm_compute. reflexivity. Qed.
 
 (* the normal page: CSS placeholder in <head>, JS placeholder (css attribute + two id attributes) in <body>, and a
    second CSS placeholder written "/>" *)
 Definition ex_phdoc : list (str * phspec) :=
-  [ (s2n "<head>", {| ph_kind := KCss; ph_css := None; ph_ids := []; ph_slash := false |});
-    (s2n "</head><body>x", {| ph_kind := KJs; ph_css := Some [48;97;49;98;50;99]; ph_ids := [[97;48;48;48;48;49]; [97;48;48;48;48;50]]; ph_slash := false |});
-    (s2n "y", {| ph_kind := KCss; ph_css := None; ph_ids := [[97;48;48;48;48;51]]; ph_slash := true |}) ].
+  [ (s2n "<head>", {| ph_kind := KCss; ph_attrl := []; ph_slash := false |});
+    (s2n "</head><body>x", {| ph_kind := KJs; ph_attrl := [(true, [48;97;49;98;50;99]); (false, [97;48;48;48;48;49]); (false, [97;48;48;48;48;50])]; ph_slash := false |});
+    (s2n "y", {| ph_kind := KCss; ph_attrl := [(false, [97;48;48;48;48;51])]; ph_slash := true |}) ].
 Example placeholder_hypotheses_satisfiable :
   check_phdoc (phdoc_bytes ex_phdoc (s2n "</body>"), ex_phdoc, s2n "</body>") = true /\
   subst_placeholders (phdoc_bytes ex_phdoc (s2n "</body>")) [74] [67] = (s2n "<head>C</head><body>xJyC</body>", true, true) /\
   assemble Document (phdoc_bytes ex_phdoc (s2n "</body>")) [74] [67] = s2n "<head>C</head><body>xJyC</body>" /\
   assemble Fragment (phdoc_bytes ex_phdoc (s2n "</body>")) [74] [67] = s2n "<head></head><body>xy</body>J".
 Proof. repeat split; vm_compute; reflexivity. Qed.
+
+(* the placeholder of corpus/C04/placeholder-css-attr-order.json (ids first, css attribute last): replaced exactly when
+   the pattern accepts the attributes in any order *)
+Example placeholder_css_attr_last :
+  let p := {| ph_kind := KCss; ph_attrl := [(false, [97;48;48;48;48;49]); (true, [48;97;49;98;50;99])]; ph_slash := true |} in
+  ph_wfb p = any_order /\
+  subst_placeholders (ph_bytes p) [74] [67] = if any_order then ([67], false, true) else (ph_bytes p, false, false).
+Proof. split; vm_compute; reflexivity. Qed.
 
 (* end to end with a concrete serialisation: class A (js "k", css "c") twice around class K (js "j") in a page with
    <head>/<body> and no placeholders; x = "<script>k" (the inline script of A): every hypothesis of final_html_counts
